@@ -7,7 +7,7 @@ from msmart.lan import LAN, _Packet
 
 from .. import alphabet as al
 from .. import refcodec as rc
-from ..harness import Determinism, World, exc_class
+from ..harness import Determinism, World, exc_class, filler
 from ..report import Stats
 from ..simdev import ScriptPeer
 
@@ -173,8 +173,19 @@ def run_shard(shard, tier) -> Stats:
                         prob = prob or "decode: different frame"
                 except Exception as e:  # noqa: BLE001
                     prob = prob or f"decode: {type(e).__name__}"
+                # the length field delimits the packet: bytes that follow it in the same segment (e.g. a second packet)
+                # do not belong to it
+                if prob is None and n % 3 == 0:
+                    ref_pkt = rc.v2_build(frame, dev_id, magic=b"\x20\x80", tail=bytes(range(12)))
+                    for tail in (b"\x00", filler("c02/tail", 16), filler("c02/tail2", 33), rc.v2_build(b"\xaa\x01", 5)):
+                        try:
+                            got = _Packet.decode(ref_pkt + tail)
+                            if got != frame:
+                                prob = "decode: different frame when further bytes follow the packet"
+                        except Exception as e:  # noqa: BLE001
+                            prob = f"decode: {type(e).__name__} when further bytes follow the packet"
                 if prob:
-                    st.violation(f"direct {prob.split(':')[0]} residue={n % 16}", case, "round trip", prob)
+                    st.violation(f"direct {prob.split(':')[0]} residue={n % 16}" + (" (trailing bytes)" if "follow" in prob else ""), case, "round trip", prob)
                 st.ev(("d", n, pat), "ok" if not prob else "bad", n > 0)
     st.reruns += det.reruns
     return st
